@@ -92,6 +92,10 @@ def build(rng, case):
     for kind in atomsgen.KNAMES:
         terms = atomsgen.random_terms(rng, n, atomsgen.WIDTH[kind], int(rng.integers(0, 6)) if not many else int(rng.integers(10, 40)))
         if not terms:
+            if rng.integers(4) == 0:
+                # a coefficient table for a kind of term the structure does not (or no longer) contain
+                kw["%s_type_coeffs" % kind] = [coeff_string(rng, "%s%d" % (kind[0], t)) for t in range(int(rng.integers(1, 4)))]
+                case["_table_without_terms"] = True
             continue
         k = int(rng.integers(1, 5)) if not many else int(rng.integers(10, 31))
         kw[atomsgen.ARR[kind]] = terms
@@ -326,6 +330,8 @@ def run_case(case, ctx):
     st.seen("style", style)
     if case.get("_empty_label"):
         st.count("structures_with_an_empty_type_label")
+    if case.get("_table_without_terms"):
+        st.count("structures_with_a_coefficient_table_for_a_kind_without_terms")
     st.seen("cell", case["cell"] + ("" if case["cell"] == "ortho" else str(case["tilt_signs"])))
     st.seen("via", case["via"])
     tl = float(np.abs([a.cell[1, 0], a.cell[2, 0], a.cell[2, 1]]).max())
@@ -419,6 +425,8 @@ def requirements(stats, tier):
         need.append("coefficient tables with >= 10 entries observed for only %d of 5 sections" % stats.nseen("two_digit_table"))
     if stats.get("second_writes_after_edit") < (60 if tier == "quick" else 20000) or stats.nseen("history_edit") < 3:
         need.append("second writes of an edited object: %d, edit kinds %s" % (stats.get("second_writes_after_edit"), sorted(stats.sets.get("history_edit", []))))
+    if stats.get("structures_with_a_coefficient_table_for_a_kind_without_terms") < (10 if tier == "quick" else 2000):
+        need.append("structures with a coefficient table for a kind without terms: %d" % stats.get("structures_with_a_coefficient_table_for_a_kind_without_terms"))
     if stats.get("structures_with_an_empty_type_label") < (5 if tier == "quick" else 1000):
         need.append("structures with an empty type label: %d" % stats.get("structures_with_an_empty_type_label"))
     if stats.nseen("style") < 2 or stats.nseen("tables") < 5:
